@@ -115,6 +115,7 @@ static const char* gs_name(int s) {
   return "UNKNOWN";
 }
 
+static long g_ns_bypass[MAX_FIBERS];
 static int g_maint_marker;
 static long g_steal_count, g_early_count;
 long g_steals(void) { return g_steal_count; }
@@ -226,6 +227,7 @@ void verif_switch(struct fiber_manager* m, struct fiber* oldf, struct fiber* new
   n->state = GS_RUNNING;
   n->on_thread = T;
   n->switches++;
+  if (n->idx >= 0) g_ns_bypass[n->idx] = 0;
   g_pending_old[T] = oldf;
   g_running[T] = n;
   g_running_maint[T] = is_maint;
@@ -297,7 +299,32 @@ int g_sleepers(void) {
   return n;
 }
 uint64_t g_switch_seq(void) { return g_seq; }
-GHOST void g_yield_noswitch(int idx) { gev_add(2, vs_self(), idx); }
+// a fiber_yield by program fiber idx came back without any switch.  Exact view of what it passed over: the fibers that sit
+// in the run queues of this very kernel thread right now (only the owner pushes, and the owner is the caller, so nothing
+// can have been added since the scheduler looked).  Valid with any number of kernel threads.
+GHOST void g_yield_noswitch(int idx) {
+  gev_add(2, vs_self(), idx);
+  if (strcmp(g_case.harness, "yield")) return;
+  fiber_manager_t* m = fiber_manager_get();
+  if (!m || !m->scheduler) return;
+  struct { wsd_work_stealing_deque_t* q1; wsd_work_stealing_deque_t* q2; }* sc = (void*)m->scheduler;
+  wsd_work_stealing_deque_t* qs[2] = {sc->q1, sc->q2};
+  const long bound = 2 * (g_case.n_fibers + 1) + 2;
+  for (int k = 0; k < 2; k++) {
+    wsd_work_stealing_deque_t* q = qs[k];
+    int64_t t = q->top, b = q->bottom;
+    wsd_circular_array_t* a = q->underlying_array;
+    for (int64_t i = t; i < b && i < t + 100000; i++) {
+      grec_t* r = g_find((fiber_t*)a->data[i & a->size_minus_one].data, 0);
+      if (!r || r->idx < 0 || r->idx == idx) continue;
+      if (++g_ns_bypass[r->idx] > bound) {
+        vs_rt_enter();
+        vs_violation("bypass_bound", "fiber %d sat in the run queue of kernel thread %d while %ld calls of fiber_yield on that thread returned without switching to anybody "
+                     "(bound %ld for %d fibers); last: fiber %d", r->idx, vs_self(), g_ns_bypass[r->idx], bound, g_case.n_fibers, idx);
+      }
+    }
+  }
+}
 int g_fiber_switches(int idx) { return g_by_idx[idx] ? g_by_idx[idx]->switches : 0; }
 void g_expect_kernel_block(int on) { g_kernel_block_expected = on; }
 int g_n_done(void) {
